@@ -21,6 +21,9 @@ import (
 )
 
 // Prop describes one property's engine-A check.
+// EvRun lets harnesses outside this module tree name the evidence type.
+type EvRun = ev.Run
+
 type Prop struct {
 	ID          string
 	Rule        string
